@@ -1571,3 +1571,96 @@ def is_remaining_ref(x):
 
 def is_eol_ref(r_):
     return r_ in ("c:Pistache::StreamCursor::eol",)
+
+
+# ---------- state that outlives a call (static / thread_local locals) ----------
+
+SYNC_TYPES = ("std::once_flag", "std::mutex", "std::recursive_mutex", "std::shared_mutex")
+KILL_METHODS = ("clear", "operator=", "assign")
+
+
+def stale_static_state(prog, roots, file_ok=None):
+    """[(func, decl event, first-touch event, chain)]: mutable static / thread_local locals in the call closure of `roots` whose value
+    from an earlier call can reach a use in a later one: on some path from the declaration the first thing done with the variable is not
+    a whole-object overwrite (clear(), assignment, assign()).  A pure counter (only ++ / fetch_add, never read) and synchronisation
+    objects carry no data from call to call and are skipped.  Returns also the number of functions looked at."""
+    reach = callgraph_reach(prog, roots)
+    out = []
+    n = 0
+    for fid, (f, chain) in reach.items():
+        if file_ok is not None and not file_ok(f.file):
+            continue
+        n += 1
+        for d in f.events("decl"):
+            if not d.get("static"):
+                continue
+            ty = (d.get("ctype") or d.get("type") or "")
+            if re.match(r"^\s*const\b", ty) or ty.rstrip().endswith(" const") or any(s_ in ty for s_ in SYNC_TYPES):
+                continue
+            v = d["var"]
+
+            def touches(e, v=v):
+                if e["k"] == "decl" and e.get("var") == v:
+                    return False
+                if e["k"] in ("dtor",):
+                    return False
+                rv = e.get("recv") or {}
+                if rv.get("root") == v or rv.get("v") == v:
+                    return True
+                if e["k"] in ("assign",) and ((e.get("lhs") or {}).get("v") == v or (e.get("lhs") or {}).get("root") == v):
+                    return True
+                if ("v:" + v) in (e.get("refs") or []):
+                    return True
+                for a in (e.get("args") or []) + (e.get("cargs") or []):
+                    if a.get("root") == v or a.get("v") == v:
+                        return True
+                if e["k"] == "incdec" and ((e.get("operand") or {}).get("v") == v):
+                    return True
+                return False
+
+            def is_kill(e, v=v):
+                if e["k"] == "assign" and e.get("op") == "=" and (e.get("lhs") or {}).get("v") == v:
+                    return True
+                if e["k"] == "call" and ((e.get("recv") or {}).get("v") == v or (e.get("recv") or {}).get("root") == v):
+                    m = strip_tmpl(e.get("callee") or "").rsplit("::", 1)[-1]
+                    if m in KILL_METHODS and (e.get("recv") or {}).get("t", "").strip() in (v, "this->" + v):
+                        return True
+                return False
+
+            def is_count(e, v=v):
+                if e["k"] == "incdec":
+                    return True
+                if e["k"] == "call" and strip_tmpl(e.get("callee") or "").rsplit("::", 1)[-1] in ("fetch_add", "fetch_sub", "operator++", "operator--"):
+                    return True
+                return False
+            evs = cfg.events_after(f, d, stop=lambda e: touches(e) and not is_count(e))
+            firsts = [e for e in evs if touches(e) and not is_count(e)]
+            bad = [e for e in firsts if not is_kill(e)]
+            if bad:
+                out.append((f, d, bad[0], chain))
+    return out, n
+
+
+STATIC_ALLOWED = {
+    # the process-wide header registry: filled by the static registrars before main(), read-only afterwards (C09-R5 checks that its
+    # mutator is not reachable from the serving path)
+    "Pistache::Http::Header::Registry::instance",
+}
+
+
+def no_stale_static_rule(ck, rid, basenames, what):
+    """Declares and decides rule `rid`: the functions of the named source files (and what they call) keep no data in static /
+    thread_local locals from one call to the next."""
+    import os as _os
+    prog = ck.prog
+    ck.rule(rid, "C path automaton on static / thread_local locals over the call closure",
+            "%s are functions of their input only: a static or thread_local local in their call closure is overwritten as a whole "
+            "(clear / assignment) before anything else is done with it on every path, so nothing an earlier call saw can reach a later result" % what, 1)
+    roots = [f for f in prog.funcs.values() if _os.path.basename(f.file) in basenames and not f.is_lambda]
+    ck.require(roots, "%s: no function of %s in the analysed program" % (rid, "/".join(basenames)))
+    stale, n = stale_static_state(prog, roots, file_ok=lambda q: "/pistache/" in q or "/src/" in q)
+    stale = [x for x in stale if x[0].base not in STATIC_ALLOWED]
+    ck.ob(rid, "no-stale-static-state", not stale, (stale[0][2].loc if stale else roots[0].loc), (stale[0][0] if stale else roots[0]),
+          ("%d functions in the closure, none keeps data in a static local" % n) if not stale else
+          "static local `%s` of %s still holds what an earlier call left in it when it is used at %s" % (stale[0][1]["var"], stale[0][0].name, stale[0][2].loc),
+          path=(stale[0][3] if stale else None))
